@@ -300,7 +300,17 @@ class SimQueue(object):
                           None if timeout is None else timeout * 1e6, 'put:' + self._label)
         if not ok:
           raise Full
-    self._put(item)
+    c = current_ctl()
+    if c is not None:
+      # the real queue holds its mutex here: item comparisons (heap order) cannot
+      # interleave with other operations on the queue
+      c.atomic += 1
+      try:
+        self._put(item)
+      finally:
+        c.atomic -= 1
+    else:
+      self._put(item)
     self.unfinished_tasks += 1
     _rec(self.kind, self._label, 'put', self._describe(item))
 
@@ -323,7 +333,15 @@ class SimQueue(object):
         if not ok:
           raise Empty
     self._before_get()
-    item = self._get()
+    c = current_ctl()
+    if c is not None:
+      c.atomic += 1
+      try:
+        item = self._get()
+      finally:
+        c.atomic -= 1
+    else:
+      item = self._get()
     _rec(self.kind, self._label, 'get', self._describe(item))
     return item
 
